@@ -721,6 +721,27 @@ func c04ValueFilters(rep *evid.Reporter, root *c04State) (filters, reads int) {
 		if fmt.Sprint(got) != fmt.Sprint(want) {
 			viol("result", fmt.Sprintf("the listing answers %v, evaluating the filter on the replayed log selects %v", got, want))
 		}
+		// the count of the same request (HEAD): the number of items the filter selects
+		hreq := httptest.NewRequest("HEAD", "/api/ledger/l1/"+path+"?"+f.params, nil).WithContext(engineh.QuietCtx())
+		hw := httptest.NewRecorder()
+		func() {
+			defer func() {
+				if r := recover(); r != nil {
+					viol("count-panic", fmt.Sprint("HEAD panics: ", r))
+				}
+			}()
+			router.ServeHTTP(hw, hreq)
+		}()
+		reads++
+		if hw.Code >= 300 {
+			if strings.Contains(hw.Body.String(), "pgmini: unsupported") {
+				rep.Undecide("interpreter: " + hw.Body.String())
+				continue
+			}
+			viol("count-error", fmt.Sprintf("HEAD with a filter parameter the listing accepts is answered with %d %s", hw.Code, hw.Body.String()))
+		} else if c := hw.Header().Get("Count"); c != fmt.Sprint(len(want)) {
+			viol("count", fmt.Sprintf("HEAD counts %s, evaluating the filter on the replayed log selects %d (%v)", c, len(want), want))
+		}
 	}
 	return filters, reads
 }
